@@ -95,6 +95,118 @@ PBT_PROPERTY(ps5_public_small) {
     if (in.strs.size() >= 2) pbt::nontrivial();
 }
 
+// public API, EVERY front-end form of strings_parallel.hpp (ps5_public_small covers four of them with memory = 0):
+// the ten overloads (unsigned char**, char**, const unsigned char**, const char**, the four std::vector forms of these,
+// std::string* + size and std::vector<std::string>) x with/without LCP x the `memory` argument
+PBT_PROPERTY(ps5_public_forms) {
+    int form = (int)src.range(0, 9);
+    bool with_lcp = src.boolean();
+    unsigned hw = (unsigned)src.range(1, 4);
+    static const size_t MEMS[] = {0, 1, 1000, (size_t)1 << 20, (size_t)1 << 40};
+    size_t memory = MEMS[src.range(0, 4)];
+    c04::Input in;
+    c04::gen_input(src, in, 200, 8);
+    c04::describe(in);
+    pbt::label(in.shape);
+    static const char* const FN[] = {"form:uchar**", "form:char**", "form:const_uchar**", "form:const_char**", "form:vector<char*>", "form:vector<uchar*>",
+                                     "form:vector<const_char*>", "form:vector<const_uchar*>", "form:string*", "form:vector<string>"};
+    pbt::label(FN[form]);
+    if (memory) pbt::label("memory_argument!=0");
+    PBT_LOG(FN[form] << " lcp=" << with_lcp << " memory=" << memory << " workers=" << hw << "\n");
+    tlx::std::thread::hw() = hw;
+    tlx::std::minstd_rand::forced_seed() = 1 + (unsigned)src.range(0, 250);
+    const size_t n = in.ptrs.size();
+    std::vector<std::string> objs; // forms 8 and 9 sort string OBJECTS
+    if (form >= 8)
+        for (size_t i = 0; i < n; ++i) objs.emplace_back(reinterpret_cast<const char*>(in.ptrs[i]));
+    const std::vector<std::string> objs_before(objs);
+    {
+#ifndef C04_REAL_THREADS
+        vsched::Options opt;
+        opt.livelock_rounds = 0;
+        vsched::Run run(src, opt);
+#endif
+        uint32_t* lcp = in.lcp.data();
+        switch (form) {
+        case 0:
+            if (with_lcp) tlx::sort_strings_parallel_lcp(in.ptrs.data(), n, lcp, memory);
+            else tlx::sort_strings_parallel(in.ptrs.data(), n, memory);
+            break;
+        case 1:
+            if (with_lcp) tlx::sort_strings_parallel_lcp(reinterpret_cast<char**>(in.ptrs.data()), n, lcp, memory);
+            else tlx::sort_strings_parallel(reinterpret_cast<char**>(in.ptrs.data()), n, memory);
+            break;
+        case 2:
+            if (with_lcp) tlx::sort_strings_parallel_lcp((const unsigned char**)(in.ptrs.data()), n, lcp, memory);
+            else tlx::sort_strings_parallel((const unsigned char**)(in.ptrs.data()), n, memory);
+            break;
+        case 3:
+            if (with_lcp) tlx::sort_strings_parallel_lcp((const char**)(in.ptrs.data()), n, lcp, memory);
+            else tlx::sort_strings_parallel((const char**)(in.ptrs.data()), n, memory);
+            break;
+        case 4: {
+            std::vector<char*> v(n);
+            for (size_t i = 0; i < n; ++i) v[i] = reinterpret_cast<char*>(in.ptrs[i]);
+            if (with_lcp) tlx::sort_strings_parallel_lcp(v, lcp, memory);
+            else tlx::sort_strings_parallel(v, memory);
+            for (size_t i = 0; i < n; ++i) in.ptrs[i] = reinterpret_cast<unsigned char*>(v[i]);
+            break;
+        }
+        case 5:
+            if (with_lcp) tlx::sort_strings_parallel_lcp(in.ptrs, lcp, memory);
+            else tlx::sort_strings_parallel(in.ptrs, memory);
+            break;
+        case 6: {
+            std::vector<const char*> v(n);
+            for (size_t i = 0; i < n; ++i) v[i] = reinterpret_cast<const char*>(in.ptrs[i]);
+            if (with_lcp) tlx::sort_strings_parallel_lcp(v, lcp, memory);
+            else tlx::sort_strings_parallel(v, memory);
+            for (size_t i = 0; i < n; ++i) in.ptrs[i] = reinterpret_cast<unsigned char*>(const_cast<char*>(v[i]));
+            break;
+        }
+        case 7: {
+            std::vector<const unsigned char*> v(in.ptrs.begin(), in.ptrs.end());
+            if (with_lcp) tlx::sort_strings_parallel_lcp(v, lcp, memory);
+            else tlx::sort_strings_parallel(v, memory);
+            for (size_t i = 0; i < n; ++i) in.ptrs[i] = const_cast<unsigned char*>(v[i]);
+            break;
+        }
+        case 8:
+            if (with_lcp) tlx::sort_strings_parallel_lcp(objs.data(), n, lcp, memory);
+            else tlx::sort_strings_parallel(objs.data(), n, memory);
+            break;
+        default:
+            if (with_lcp) tlx::sort_strings_parallel_lcp(objs, lcp, memory);
+            else tlx::sort_strings_parallel(objs, memory);
+        }
+    }
+    if (form < 8) c04::check_output(in, with_lcp, sched_report);
+    else {
+        // string objects: same multiset of contents, non-decreasing unsigned-byte order, exact neighbouring LCPs
+        if (objs.size() != n) sched_report("C04/not-a-permutation", "the number of string objects changed");
+        std::vector<std::string> a(objs_before), b(objs);
+        std::sort(a.begin(), a.end());
+        std::sort(b.begin(), b.end());
+        if (a != b) sched_report("C04/not-a-permutation", "the output strings are not a permutation of the input strings (a string object was lost, duplicated or altered)");
+        for (size_t i = 1; i < n; ++i) {
+            const std::string &x = objs[i - 1], &y = objs[i];
+            size_t h = 0;
+            while (h < x.size() && h < y.size() && x[h] == y[h]) ++h;
+            bool le = h == x.size() || (h < y.size() && (unsigned char)x[h] < (unsigned char)y[h]);
+            if (!le) {
+                sched_report("C04/not-sorted", "position " + std::to_string(i) + ": " + pbt::show_bytes(x) + " > " + pbt::show_bytes(y));
+                break;
+            }
+            if (with_lcp && in.lcp[i] != h) {
+                sched_report("C04/wrong-lcp", "lcp[" + std::to_string(i) + "]=" + std::to_string(in.lcp[i]) + " but " + pbt::show_bytes(x) + " and " + pbt::show_bytes(y) + " share " + std::to_string(h) + " bytes");
+                break;
+            }
+        }
+        if (with_lcp && n < in.lcp.size() && in.lcp[n] != c04::POISON) sched_report("C04/lcp-overrun", "lcp array written past n");
+    }
+    if (in.strs.size() >= 2) pbt::nontrivial();
+}
+
 #ifdef C04_REAL_THREADS
 // public API, DEFAULT parameters, n slightly above 2^20 so that the parallel big step (and, for
 // prefix-heavy inputs, nested big steps and "no sub-job" buckets) is reached. Pointers to a handful
